@@ -89,14 +89,30 @@ def run(ctx, col: Collector):
     def forms():
         from .forms import form_obligation
         keep = {'get_full_name_for_sql', 'comment_to_sql', 'escape_braces', 'col_names'}
+        def has_(attr):
+            def pred(lits):
+                for l in lits:
+                    if l[0] == 'truthy' and str(l[1]).endswith('.' + attr):
+                        return True
+                    if l[0] == 'not' and isinstance(l[1], tuple) and l[1][0] == 'truthy' and str(l[1][1]).endswith('.' + attr):
+                        return False
+                return None
+            return pred
         CON = r'(\{c\}|◦|CONSTRAINT "◦" )?'
         ACT = r'( ON UPDATE ◦)?( ON DELETE ◦)?'
         guarded(col, 'C04-form', 'generate_inline_sql', lambda: form_obligation(
             ctx, col, 'C04-form', REFMOD, 'generate_inline_sql', r'(◦ ?)?' + CON + r'FOREIGN KEY \(◦\) REFERENCES ◦ \(◦\)' + ACT,
-            '[CONSTRAINT "name"] FOREIGN KEY (cols) REFERENCES table (cols) [ON UPDATE a] [ON DELETE a]', keep=keep))
+            '[CONSTRAINT "name"] FOREIGN KEY (cols) REFERENCES table (cols) [ON UPDATE a] [ON DELETE a]', keep=keep,
+            order=[('source columns, referenced table, referenced columns', [r'source_col\b(?!\[0\]\.table)', r'ref_col\[0\]\.table', r'ref_col\b(?!\[0\]\.table)'])],
+            labels=[('ON UPDATE action', r'\.on_update\b', has_('on_update'), True, 'ON UPDATE is written although no update action is set, or left out although one is set'),
+                    ('ON DELETE action', r'\.on_delete\b', has_('on_delete'), True, 'ON DELETE is written although no delete action is set, or left out although one is set')]))
         guarded(col, 'C04-form', 'generate_not_inline_sql', lambda: form_obligation(
             ctx, col, 'C04-form', REFMOD, 'generate_not_inline_sql', r'(◦ ?)?ALTER TABLE ◦ ADD ' + CON + r'FOREIGN KEY \(◦\) REFERENCES ◦ \(◦\)' + ACT + r' ?;',
-            'ALTER TABLE t ADD [CONSTRAINT "name"] FOREIGN KEY (cols) REFERENCES table (cols) [ON UPDATE a] [ON DELETE a];', keep=keep))
+            'ALTER TABLE t ADD [CONSTRAINT "name"] FOREIGN KEY (cols) REFERENCES table (cols) [ON UPDATE a] [ON DELETE a];', keep=keep,
+            order=[('source table, source columns, referenced table, referenced columns',
+                    [r'source_col\[0\]\.table', r'source_col\b(?!\[0\]\.table)', r'ref_col\[0\]\.table', r'ref_col\b(?!\[0\]\.table)'])],
+            labels=[('ON UPDATE action', r'\.on_update\b', has_('on_update'), True, 'ON UPDATE is written although no update action is set, or left out although one is set'),
+                    ('ON DELETE action', r'\.on_delete\b', has_('on_delete'), True, 'ON DELETE is written although no delete action is set, or left out although one is set')]))
     forms()
 
     # ---------------------------------------------------------------- C04-sibling
